@@ -46,7 +46,9 @@ var checker = &vk.Checker[Case]{
 	Rule: "level masks of height 0..30 by class (full, leaf-only, one level missing, root+leaves, random, sparse, dense) x nodes (length 0..h with 0,1,h-1,h boosted; prefixes all-0, all-1, alternating, single-1, random), " +
 		"path words encoded by the oracle (never by NewPath); PathToIndexLoose on every node, PathToIndex on stored levels, first/last stored node, pre-order successor (+1), and order of a second node; " +
 		"both in the release build and with -tags debug (contracts live; any panic is a failure). Grid: every mask of height <= 9 (thorough <= 13, debug <= 12) x every node against a literal recursive pre-order walk (bijection). " +
-		"Non-trivial: path length >= 1 and (general mask of height >= 2, or full/leaf-only mask of height >= 7). Grid nodes are distinct by construction; rapid cases are hashed only when their height lies above the grid bound.",
+		"Sweep (in the grid phase): every height above the grid bound up to 30 x every path length 0..h gets the same number of nodes (2048, thorough 8192, minus duplicates; identical nodes in both builds): masks stratified full / leaf-only / one-missing / root+leaves / few-levels / sparse / dense / two-missing / random (7 of 16) / rotations of a de Bruijn sequence (every pattern of 6 adjacent level bits at every position), " +
+		"prefixes all-0, all-1, alternating, single-1, single-0, de Bruijn rotation, sparse, dense, random (7 of 16); every 37th node is followed along 8 pre-order successors on stored levels (consecutive indexes). " +
+		"Non-trivial: path length >= 1 and (general mask of height >= 2, or full/leaf-only mask of height >= 7). Grid and sweep nodes are distinct by construction (sweep: duplicates within a cell are dropped, successor-walk nodes are not counted as non-trivial); rapid cases are hashed only when their height lies above the grid bound.",
 	Check:    check,
 	Classify: classify,
 	Hashed:   func(c Case) bool { return model.NewTree(c.Mask).H > gridMaxH() },
@@ -108,7 +110,9 @@ func classify(c Case) (bool, []string) {
 func checkNode(mask int32, tr model.Tree, prefix uint64, l int, wantIdx int64, wantHas bool) *vk.Failure {
 	p := model.PathWord(prefix, l, tr.H)
 	var gi, gh int32
-	if f := vk.Try(fmt.Sprintf("PathToIndexLoose(mask=%#x, path=%#x [prefix=%b len=%d h=%d], debug=%v)", mask, p, prefix, l, tr.H, debugBuild), func() {
+	if f := vk.TryF(func() string {
+		return fmt.Sprintf("PathToIndexLoose(mask=%#x, path=%#x [prefix=%b len=%d h=%d], debug=%v)", mask, p, prefix, l, tr.H, debugBuild)
+	}, func() {
 		gi, gh = bmtree.PathToIndexLoose(mask, p)
 	}); f != nil {
 		if debugBuild {
@@ -125,7 +129,9 @@ func checkNode(mask int32, tr model.Tree, prefix uint64, l int, wantIdx int64, w
 	}
 	if wantHas {
 		var si int32
-		if f := vk.Try(fmt.Sprintf("PathToIndex(mask=%#x, path=%#x [prefix=%b len=%d h=%d], debug=%v)", mask, p, prefix, l, tr.H, debugBuild), func() {
+		if f := vk.TryF(func() string {
+			return fmt.Sprintf("PathToIndex(mask=%#x, path=%#x [prefix=%b len=%d h=%d], debug=%v)", mask, p, prefix, l, tr.H, debugBuild)
+		}, func() {
 			si = bmtree.PathToIndex(mask, p)
 		}); f != nil {
 			if debugBuild {
@@ -370,4 +376,5 @@ func TestGrid(t *testing.T) {
 	}
 	vk.CountConstructed(evals, nontriv, "grid-node", "build:"+b)
 	vk.MarkExhaustive(fmt.Sprintf("all level masks of height <= %d x all nodes (%s build)", maxH, b))
+	sweepHigh(t)
 }
